@@ -29,11 +29,77 @@ fn sh<T: L>(l: &T) -> String {
     Tab::new(l.nv(), l.blocks_v()).show()
 }
 
+/// `itera <ty> <n> <a> <kind> <b>`: `a` plain calls of `next`, then one of the provided methods of
+/// `Iterator` on the concrete iterator type, then one more `next` (seeds C08-j, C02-j: an `nth`
+/// override that is wrong at the end of the run)
+pub fn run_itera<T: L, I: Iterator<Item = T>>(mut it: I, a: usize, kind: &str, b: usize) -> Option<String> {
+    for _ in 0..a {
+        it.next();
+    }
+    let show = |o: Option<T>| match o {
+        Some(l) => sh(&l),
+        None => "none".to_string(),
+    };
+    Some(match kind {
+        "nth" => {
+            let r = it.nth(b);
+            let r2 = it.next();
+            format!("ok {} {}", show(r), show(r2))
+        }
+        "skip" => {
+            let mut s = it.skip(b);
+            let r = s.next();
+            let r2 = s.next();
+            format!("ok {} {}", show(r), show(r2))
+        }
+        "stepby" => {
+            if b == 0 {
+                return None;
+            }
+            let mut s = it.step_by(b);
+            let v: Vec<String> = (0..5).map(|_| show(s.next())).collect();
+            format!("ok {}", v.join(" "))
+        }
+        "count" => {
+            let c = it.by_ref().count();
+            format!("ok {} {}", c, show(it.next()))
+        }
+        "last" => {
+            let r = it.by_ref().last();
+            format!("ok {} {}", show(r), show(it.next()))
+        }
+        "max" => {
+            let r = it.by_ref().max();
+            format!("ok {} {}", show(r), show(it.next()))
+        }
+        "min" => {
+            let r = it.by_ref().min();
+            format!("ok {} {}", show(r), show(it.next()))
+        }
+        "fold" => {
+            let h = it.by_ref().fold(FNV_INIT, |mut h, l| {
+                for w in l.blocks_v() {
+                    h = digest_step(h, w);
+                }
+                h
+            });
+            format!("ok {:x} {}", h, show(it.next()))
+        }
+        "hint" => {
+            // size_hint must bracket the number of items that are left
+            let (lo, hi) = it.size_hint();
+            let c = it.count();
+            format!("ok {}", show_bool(lo <= c && hi.map_or(true, |h| c <= h)))
+        }
+        _ => return None,
+    })
+}
+
 fn us(s: &str) -> Option<usize> {
     s.parse().ok()
 }
 
-const NFORMS: usize = 10;
+const NFORMS: usize = 14;
 
 fn volute_table_size(n: usize) -> usize {
     if n <= 6 {
@@ -389,6 +455,7 @@ fn run_lut<T: L>(toks: &[&str]) -> Option<String> {
             let ok_flag = if exhausted { it.next().is_some() || it.next().is_some() || it.next().is_some() } else { it.next().is_some() };
             format!("ok {} {:x} {}", cnt, h, show_bool(ok_flag))
         }
+        ("itera", 6) => T::itera_(us(t[2])?, us(t[3])?, t[4], us(t[5])?)?,
         ("tohex", 3) => {
             let l: T = mk(&parse_tab(t[2])?);
             format!("ok {}", show_bytes(l.to_hex_().as_bytes()))
@@ -446,7 +513,7 @@ fn d2s<T: L + TryFrom<Lut, Error = ()>>(tab: &Tab) -> String {
 fn line_n(t: &[&str]) -> Option<usize> {
     match t[0] {
         "ctor" => us(t.get(3)?),
-        "fromblocks" | "fromhex" | "iter" | "bdd" | "hist" => us(t.get(2)?),
+        "fromblocks" | "fromhex" | "iter" | "itera" | "bdd" | "hist" => us(t.get(2)?),
         _ => {
             for s in t {
                 if let Some((a, _)) = s.split_once(':') {
